@@ -1,0 +1,116 @@
+//! ACK frame parsing in `frame.rs`: `scan_ack_blocks`, `AckIter`, the ACK arm of `Iter::try_next`, `Ack::encode`.
+//!
+//! Requests (first token `ackscan` already removed):
+//!   scan <largest> <n> <hex>      scan_ack_blocks(buf, largest, n)      -> ok <consumed> | err <reason>
+//!   iter <largest> <hex>          AckIter over arbitrary `additional`   -> ok <lo>-<hi>,… | panic
+//!   dec <hex>                     frame::Iter on a payload whose first byte is 02/03 (ACK / ACK_ECN), first frame only
+//!                                 -> ok <largest> <delay> <ect0,ect1,ce|none> <lo>-<hi>,… <remaining> | err <reason>
+//!   enc <delay> <a,b,c|none> <s-e,s-e,…|->   Ack::encode(delay, ranges, ecn); ranges half-open, ascending,
+//!                                 non-empty, non-adjacent (what an ArrayRangeSet holds)  -> ok <hex> | panic
+use super::{hex, num, unhex, Comp, BAD};
+use crate::frame::{self, Ack, EcnCounts, Frame};
+use crate::range_set::ArrayRangeSet;
+use bytes::Bytes;
+
+pub(super) struct AckScanC;
+
+fn ranges(it: impl Iterator<Item = std::ops::RangeInclusive<u64>>) -> String {
+    let v: Vec<String> = it.map(|r| format!("{}-{}", r.start(), r.end())).collect();
+    if v.is_empty() {
+        "-".into()
+    } else {
+        v.join(",")
+    }
+}
+
+fn reason(r: &str) -> String {
+    r.replace(' ', "-")
+}
+
+impl Comp for AckScanC {
+    fn exec(&mut self, w: &[&str]) -> String {
+        match w {
+            ["scan", largest, n, h] => {
+                let (Some(largest), Some(n), Some(b)) = (num(largest), num(n), unhex(h)) else {
+                    return BAD.into();
+                };
+                match frame::verif_scan_ack_blocks(&b, largest, n as usize) {
+                    Ok(k) => format!("ok {k}"),
+                    Err(e) => format!("err {}", reason(e)),
+                }
+            }
+            ["iter", largest, h] => {
+                let (Some(largest), Some(b)) = (num(largest), unhex(h)) else {
+                    return BAD.into();
+                };
+                let ack = Ack {
+                    largest,
+                    delay: 0,
+                    additional: Bytes::from(b),
+                    ecn: None,
+                };
+                format!("ok {}", ranges(ack.iter()))
+            }
+            ["dec", h] => {
+                let Some(b) = unhex(h) else { return BAD.into() };
+                if b.is_empty() || (b[0] != 0x02 && b[0] != 0x03) {
+                    return BAD.into();
+                }
+                let mut it = match frame::Iter::new(Bytes::from(b)) {
+                    Ok(it) => it,
+                    Err(_) => return BAD.into(),
+                };
+                match it.next() {
+                    Some(Ok(Frame::Ack(ack))) => {
+                        let ecn = match ack.ecn {
+                            None => "none".to_string(),
+                            Some(e) => format!("{},{},{}", e.ect0, e.ect1, e.ce),
+                        };
+                        format!(
+                            "ok {} {} {ecn} {} {}",
+                            ack.largest,
+                            ack.delay,
+                            ranges(ack.iter()),
+                            it.verif_remaining()
+                        )
+                    }
+                    Some(Err(e)) => format!("err {}", reason(e.reason)),
+                    _ => "err other".into(),
+                }
+            }
+            ["enc", delay, ecn, rs] => {
+                let Some(delay) = num(delay) else { return BAD.into() };
+                let ecn = match *ecn {
+                    "none" => None,
+                    x => {
+                        let v: Vec<Option<u64>> = x.split(',').map(num).collect();
+                        match v[..] {
+                            [Some(ect0), Some(ect1), Some(ce)] => Some(EcnCounts { ect0, ect1, ce }),
+                            _ => return BAD.into(),
+                        }
+                    }
+                };
+                let mut set = ArrayRangeSet::new();
+                if *rs != "-" {
+                    let mut prev_end: Option<u64> = None;
+                    for r in rs.split(',') {
+                        let Some((s, e)) = r.split_once('-') else { return BAD.into() };
+                        let (Some(s), Some(e)) = (num(s), num(e)) else { return BAD.into() };
+                        if s >= e || prev_end.map_or(false, |p| p >= s) {
+                            return BAD.into();
+                        }
+                        prev_end = Some(e);
+                        set.insert(s..e);
+                    }
+                    if set.len() > 256 {
+                        return BAD.into();
+                    }
+                }
+                let mut buf = Vec::new();
+                Ack::encode(delay, &set, ecn.as_ref(), &mut buf);
+                format!("ok {}", hex(&buf))
+            }
+            _ => BAD.into(),
+        }
+    }
+}
